@@ -2,6 +2,8 @@ import PyGam.Proofs.Penalty
 import PyGam.Proofs.Kron
 import PyGam.Proofs.SplineShapeRows
 import PyGam.Proofs.SplineConvex
+import PyGam.Proofs.ConstraintBound
+import PyGam.Proofs.SplineAlmostMono
 import Mathlib.Algebra.Order.Ring.Defs
 import Mathlib.Tactic.Linarith
 import Mathlib.Tactic.Positivity
@@ -301,6 +303,102 @@ end function_level
 /-- non-vacuity: c = (1,3,2,5) violates monotone-increasing once, by 1 -/
 example : quadForm 4 (monoPen (α := Int) true 4 (fun k => [1,3,2,5].getD k 0)) (fun k => [1,3,2,5].getD k 0) = 1 := by
   decide
+
+/-! ### how large a violation can a converged soft-constrained fit keep?
+
+The constraint is *soft*: PIRLS adds `lamC · C(β)` (`lamC = 1e9`, `gen_constraint_strength`) and a conditioning
+ridge `ρ I` to the penalty of the constrained term, `C(β)` being rebuilt from the coefficients entering the
+iteration.  At a fixed point the rows of the penalised normal equations that belong to the term read
+`lamC (C(β) β)_i + ρ β_i = r_i`, where `r = Bᵀ W² (z − B β) − (S + P) β` is the score residual of the
+*unconstrained* penalised criterion on that block (the working residual in coefficient space).  The theorems below
+say that the violating differences are exactly the (double) partial sums of `(r − ρ β) / lamC`, hence bounded by
+`(Σ|r_i| + ρ Σ|β_i|) / lamC` (monotone) resp. `n ×` that (convex / concave) — the bound
+"of order n × |working residual| / 1e9" of the property — and that the fitted function is then monotone up to
+`(n−1) ×` the coefficient bound inside its domain.  The harness validates the hypothesis (the fixed-point rows,
+with the mask of the entering coefficients) and the conclusion on real converged fits (`con.violation` stream). -/
+section violation_bound
+variable {γ : Type} [Field γ] [LinearOrder γ] [IsStrictOrderedRing γ]
+
+/-- **identity behind the bound** (any ring, any mask, any vector — in particular the mask built from the
+coefficients *entering* the last iteration and the coefficients it *produced*): the masked first differences are
+the negated partial sums of the product with the constraint matrix -/
+theorem violations_are_partial_sums (n : Nat) (mask x : Nat → α) (j : Nat) (hj : j < n - 1) :
+    mask j * (mask j * (x (j+1) - x j)) = - ∑ i ∈ range (j + 1), mulVec n (maskedPen n 1 mask) x i := by
+  have := maskedPen1_partial_sum n mask x j hj
+  simp only [maskedViol, diffVec] at this
+  rw [this, neg_neg]
+
+/-- second differences: double partial sums -/
+theorem violations2_are_double_partial_sums (n : Nat) (mask x : Nat → α) (j : Nat) (hj : j < n - 2) :
+    mask j * (mask j * (x (j+2) - x (j+1) - (x (j+1) - x j)))
+      = ∑ l ∈ range (j + 1), ∑ i ∈ range (l + 1), mulVec n (maskedPen n 2 mask) x i := by
+  have := maskedPen2_double_partial_sum n mask x j hj
+  simp only [maskedViol2, iterDiffVec, diffVec] at this
+  rw [this]
+
+/-- **monotone constraints**: every violating first difference of a fixed point is at most
+`(Σ|r_i| + ρ Σ|β_i|) / lamC` in absolute value -/
+theorem mono_fixed_point_violation_bound (incr : Bool) (n : Nat) (c r : Nat → γ) (lamC ρ : γ) (hl : 0 < lamC)
+    (hρ : 0 ≤ ρ) (hfix : ∀ i < n, lamC * mulVec n (conMatrix n c (if incr then .monoInc else .monoDec)) c i + ρ * c i = r i)
+    (j : Nat) (hj : j + 1 < n) :
+    |(if incr then min (c (j+1) - c j) 0 else max (c (j+1) - c j) 0)|
+      ≤ (∑ i ∈ range n, |r i| + ρ * ∑ i ∈ range n, |c i|) / lamC := by
+  have h := mono_violation_bound incr n c r lamC ρ hl hρ
+    (by cases incr <;> simpa [conMatrix] using hfix) j (by omega)
+  simpa [violPart, diffVec] using h
+
+/-- **convex / concave constraints**: every violating second difference of a fixed point is at most
+`n (Σ|r_i| + ρ Σ|β_i|) / lamC` in absolute value -/
+theorem conv_fixed_point_violation_bound (convex : Bool) (n : Nat) (c r : Nat → γ) (lamC ρ : γ) (hl : 0 < lamC)
+    (hρ : 0 ≤ ρ) (hfix : ∀ i < n, lamC * mulVec n (conMatrix n c (if convex then .convex else .concave)) c i + ρ * c i = r i)
+    (j : Nat) (hj : j + 2 < n) :
+    |(if convex then min (c (j+2) - c (j+1) - (c (j+1) - c j)) 0 else max (c (j+2) - c (j+1) - (c (j+1) - c j)) 0)|
+      ≤ (n : γ) * (∑ i ∈ range n, |r i| + ρ * ∑ i ∈ range n, |c i|) / lamC := by
+  have h := conv_violation_bound convex n c r lamC ρ hl hρ
+    (by cases convex <;> simpa [conMatrix] using hfix) j (by omega)
+  simpa [violPart2, iterDiffVec, diffVec] using h
+
+variable [HasFract γ]
+
+/-- **function level**: a fixed point of the monotone-increasing soft constraint is non-decreasing inside the
+term's domain up to `(n−1) (Σ|r_i| + ρ Σ|β_i|) / lamC` -/
+theorem spline_almost_mono_at_fixed_point (ε : γ) (hε : 0 ≤ ε) (cfg : BasisCfg γ) (hper : cfg.periodic = false)
+    (hn : cfg.order < cfg.nSplines) (hε0 : cfg.order = 0 → 0 < ε) (c r : Nat → γ) (lamC ρ : γ) (hl : 0 < lamC)
+    (hρ : 0 ≤ ρ)
+    (hfix : ∀ i < cfg.nSplines,
+      lamC * mulVec cfg.nSplines (conMatrix cfg.nSplines c .monoInc) c i + ρ * c i = r i)
+    (x x' : γ) (h0 : 0 ≤ cfg.rescale x) (hxx : x ≤ x') (h1 : cfg.rescale x' ≤ 1) :
+    splineFn ε cfg c x
+        - ((cfg.nSplines - 1 : Nat) : γ)
+          * ((∑ i ∈ range cfg.nSplines, |r i| + ρ * ∑ i ∈ range cfg.nSplines, |c i|) / lamC)
+      ≤ splineFn ε cfg c x' := by
+  rw [splineFn_eq ε cfg hper, splineFn_eq ε cfg hper]
+  set δ := (∑ i ∈ range cfg.nSplines, |r i| + ρ * ∑ i ∈ range cfg.nSplines, |c i|) / lamC with hδdef
+  have hδ0 : 0 ≤ δ := by
+    apply div_nonneg _ (le_of_lt hl)
+    have h1 : 0 ≤ ∑ i ∈ range cfg.nSplines, |r i| := sum_nonneg (fun i _ => abs_nonneg _)
+    have h2 : 0 ≤ ρ * ∑ i ∈ range cfg.nSplines, |c i| := mul_nonneg hρ (sum_nonneg (fun i _ => abs_nonneg _))
+    linarith
+  have hδ : ∀ i, i + 1 < cfg.nSplines → -δ ≤ c (i+1) - c i := by
+    intro i hi
+    have hb := mono_fixed_point_violation_bound true cfg.nSplines c r lamC ρ hl hρ (by simpa using hfix) i hi
+    simp only [if_true] at hb
+    have := neg_abs_le (min (c (i+1) - c i) 0)
+    have hm : min (c (i+1) - c i) 0 ≤ c (i+1) - c i := min_le_left _ _
+    linarith
+  exact splineVal_almost_mono _ _ ε hn hε hε0 c δ hδ0 hδ _ _ h0 (rescale_mono cfg x x' hxx) h1
+
+end violation_bound
+
+/-- non-vacuity of the fixed-point hypothesis: `c = (1, 0)` violates monotone-increasing by `-1`; with
+`lamC = 10`, `ρ = 0` the constraint rows are `r = (10, -10)` and the bound `(10 + 10)/10 = 2 ≥ 1` holds
+(the identity gives exactly `-(10)/10 = -1`) -/
+example : ∀ i < 2, (10:ℚ) * mulVec 2 (conMatrix 2 (fun k => [(1:ℚ), 0].getD k 0) .monoInc)
+    (fun k => [(1:ℚ), 0].getD k 0) i + 0 * (fun k => [(1:ℚ), 0].getD k 0) i = (fun k => [(10:ℚ), -10].getD k 0) i := by
+  intro i hi
+  have hcases : i = 0 ∨ i = 1 := by omega
+  rcases hcases with rfl | rfl <;> simp [mulVec, sumTo, conMatrix, monoPen, maskedPen, monoMask, diffMat, iterDiffLast, diffLast,
+    ident, diffVec] <;> norm_num
 
 /-! ### tie to the source by translation -/
 
